@@ -112,7 +112,15 @@ def retryPending (merged : Out) : List WP → Out × List WP × List String
   | [] => (merged, [], [])
   | q :: rest =>
     match q.data with
-    | none => retryPending merged rest
+    | none =>
+      -- a failed group: nothing to set, but its object must be there
+      match locate merged q.path with
+      | some (.obj _) =>
+        let r := retryPending merged rest
+        (r.1, r.2.1, ("child-group-before-parent-group:" ++ pathStr q.path ++ "|" ++ q.label) :: r.2.2)
+      | _ =>
+        let r := retryPending merged rest
+        (r.1, q :: r.2.1, r.2.2)
     | some upd =>
       match applyAt merged q.path upd with
       | some m' =>
@@ -131,7 +139,7 @@ def step (s : MergeSt) (p : WP) : MergeSt :=
     match p.data with
     | none =>
       -- nothing to set, but the object must be there
-      let found := (locate s.merged p.path).isSome
+      let found := match locate s.merged p.path with | some (.obj _) => true | _ => false
       let r := retryPending s.merged s.pending
       { merged := r.1, failed, seen := s.seen ++ [key], pending := if found then r.2.1 else r.2.1 ++ [p], bad := bad ++ r.2.2 }
     | some upd =>
